@@ -113,8 +113,25 @@ G07_bodyFaithful(cfg, st, h) ==
   (Tun(cfg, st) \/ (st.hops >= 1 /\ st.lastStatus \notin {307, 308})) \/
   (h.req.bodyLen = Body(cfg) /\ h.req.bodyLcp = Body(cfg))
 G07_connectionClose(cfg, st, h) == Tun(cfg, st) \/ h.req.conn = <<"close">>
+\* caller-supplied header operations <<name, value>> (set) or <<name, value, TRUE>> (append), in order:
+\* set replaces every earlier value of that name, append adds one
+IsAppend(op) == Len(op) = 3 /\ op[3]
+RECURSIVE FoldOps(_, _)
+FoldOps(ops, name) ==
+  IF ops = <<>> THEN <<>>
+  ELSE LET rest == FoldOps(SubSeq(ops, 1, Len(ops) - 1), name)
+           last == ops[Len(ops)]
+       IN IF last[1] # name THEN rest ELSE IF IsAppend(last) THEN Append(rest, last[2]) ELSE <<last[2]>>
+ObservedValues(hdrs, name) ==
+  LET sel == SelectSeq(hdrs, LAMBDA x : x[1] = name) IN [i \in 1..Len(sel) |-> sel[i][2]]
+CallerHeadersKept(cfg, h) ==
+  \A i \in 1..Len(cfg.req.headers) :
+     LET name == cfg.req.headers[i][1] IN
+     \* the framing / connection fields belong to the library: the caller's values for them may be replaced
+     name \in {"content-length", "transfer-encoding", "connection", "host"}
+       \/ ObservedValues(h.req.hdrs, name) = FoldOps(cfg.req.headers, name)
 G07_queryAndHeaders(cfg, st, h) ==
-  Tun(cfg, st) \/ ((st.hops = 0 => h.req.qmatch = h.req.qpairs) /\ h.req.kept = h.req.ncaller)
+  Tun(cfg, st) \/ ((st.hops = 0 => h.req.qmatch = h.req.qpairs) /\ CallerHeadersKept(cfg, h) /\ h.req.authOk)
 G07_noSecretsToProxy(cfg, st, h) == TRUE
 
 HopGuards == {"G09_noExtraRequest", "G09_bound", "G09_resolvedTarget", "G08_dial", "G08_targetForm", "G08_noFragmentNoCreds",
@@ -149,9 +166,9 @@ HopProp(g, st) ==
     [] g \in {"G08_dial", "G08_targetForm", "G08_noFragmentNoCreds", "G08_host"} -> "C08"
     [] g \in {"G12_connectOnlyWhenTunnelled", "G12_connectNamesOrigin", "G12_proxyAuthorization", "G12_nothingBeforeAgreement",
               "G12_noSecretsInClear", "G12_sniIsOrigin"} -> "C12"
-    [] OTHER -> IF st.hops = 0 THEN "C07" ELSE "C10"
-\* C10 restates C08 for every later hop: those failures are reported under both properties
-AlsoC10(g, st) == st.hops > 0 /\ g \in {"G08_dial", "G08_targetForm", "G08_noFragmentNoCreds", "G08_host"}
+    [] OTHER -> "C07"
+\* C10 restates C07 and C08 for every later hop: those failures are reported under both properties
+AlsoC10(g, st) == st.hops > 0 /\ (g \in {"G08_dial", "G08_targetForm", "G08_noFragmentNoCreds", "G08_host"} \/ HopProp(g, st) = "C07")
 HopViolations(cfg, st, h) == {g \in HopGuards : ~HopGuard(g, cfg, st, h)}
 
 AfterHop(cfg, st) == [After(cfg, st) EXCEPT !.hops = @ + 1]
